@@ -19,11 +19,19 @@
                                after it returned
      Returned                  RunZMQ returned
      ProxyState{running}       goroutines of proxyZMQ still exist (read from the goroutine dump)
-     Quiesce{zmq,drp,tot,chan} the driver waited until nothing moved any more and read the counters and len(regChan) *)
+     Quiesce{zmq,drp,tot,chan} the driver waited until nothing moved any more and read the counters and len(regChan)
+
+   Joint runs with the real HandleRegUpdates reading regChan (the wiring of cmd/application/main.go; the other half of the
+   same run is validated by spec/Pipeline/Trace_Pipeline):
+     ConsFree                  from here on the reader is the real pipeline: Consume is a silent step
+     PipeQuiesce{zmq,drp,tot,chan,ingested}
+                               as Quiesce, plus the pipeline's own count of messages taken from regChan
+                               (RegistrationManager.totalIngestMessages = Pipeline!ingested), which must be what this
+                               specification says left regChan: fwd - Len(chanq) *)
 EXTENDS ZmqProxy, Json, TLCExt
 TraceLog == ndJsonDeserialize("trace.ndjson")
 VARIABLES l,
-          cp, cm,     \* reader: "idle" | "called" | "done", message taken
+          cp, cm,     \* reader: "idle" | "called" | "done" (| "free": the real pipeline reads), message taken
           kp,         \* cancel: "idle" | "called" | "done"
           pp,         \* PrintAndReset: "idle" | "called"
           wl          \* the "ingest full" line of the pending drop has been seen
@@ -65,6 +73,11 @@ Logged(e) ==
     [] e.a = "Quiesce"    -> /\ ~AutoEn /\ ipc # "warn" /\ spc = "idle" /\ cp = "idle"
                              /\ zmq = e.zmq /\ drp = e.drp /\ tot = e.tot /\ Len(chanq) = e.chan
                              /\ Stutter /\ UNCHANGED xvars
+    [] e.a = "ConsFree"   -> cp = "idle" /\ cp' = "free" /\ Stutter /\ UNCHANGED <<cm, kp, pp, wl>>
+    [] e.a = "PipeQuiesce" -> /\ ~AutoEn /\ ipc # "warn" /\ spc = "idle"
+                              /\ zmq = e.zmq /\ drp = e.drp /\ tot = e.tot /\ Len(chanq) = e.chan
+                              /\ fwd - Len(chanq) = e.ingested
+                              /\ Stutter /\ UNCHANGED xvars
     [] OTHER              -> FALSE
 
 TraceStep == /\ l <= Len(TraceLog) /\ TraceLog[l].a # "Reset" /\ l' = l + 1
@@ -76,6 +89,7 @@ Silent == /\ UNCHANGED l
              \/ pp = "called" /\ PLen /\ UNCHANGED xvars
              \/ PStore /\ UNCHANGED xvars
              \/ cp = "called" /\ Consume /\ cp' = "done" /\ cm' = Head(chanq) /\ UNCHANGED <<kp, pp, wl>>
+             \/ cp = "free" /\ Consume /\ UNCHANGED xvars
              \/ kp = "called" /\ Cancel /\ kp' = "done" /\ UNCHANGED <<cp, cm, pp, wl>>
 
 TraceNext == TraceReset \/ TraceStep \/ Silent
